@@ -82,6 +82,7 @@ class StreamTask:
         self.inst = None
         self.dead = False
         self.rng_before = {}             # own sample index -> library RNG state (RNG consumers only)
+        self.q_mutations = []            # own samples at which the a-priori quaternion argument was modified in place
         self.dt_eff = C.effective_dt(self.p, self.dt)
 
     def start(self, q_init):
@@ -111,8 +112,14 @@ class StreamTask:
         g, a, m = self.samples(k)
         if self.kind.uses_library_rng:
             self.rng_before[j] = np.random.get_state()
+        q_in = self.q
+        q_bytes = q_in.tobytes() if isinstance(q_in, np.ndarray) else None
         try:
             r = self.kind.step(self.inst, self.p, self.q, g, a, m, C.call_dt(self.p, self.dt))
+            if q_bytes is not None and q_in.tobytes() != q_bytes:
+                # the a-priori quaternion handed in is the caller's array (its previous attitude): it was overwritten
+                self.q_mutations.append(j)
+                log.add('q-mutation', self.idx, j)
             self.out[j] = out_to_array(r)
             if r is not None and self.kind.recursive:
                 # the application feeds what it was handed straight back (no defensive copy), as in the docs' loops
